@@ -239,6 +239,12 @@ func (g *Gen) scalar() *Scalar {
 	}
 }
 
+// ImplicitTypes: the well-known types that can be referred to without an import (imports.go
+// implicitImports); two of them are also the types of the implicit leading fields of topic messages.
+var ImplicitTypes = [][2]string{{"j5.list.v1", "PageRequest"}, {"j5.list.v1", "PageResponse"}, {"j5.list.v1", "QueryRequest"},
+	{"j5.state.v1", "StateMetadata"}, {"j5.state.v1", "EventMetadata"}, {"j5.state.v1", "EventPublishMetadata"},
+	{"j5.messaging.v1", "UpsertMetadata"}, {"j5.messaging.v1", "RequestMetadata"}}
+
 // pickRef chooses a declared type of the wanted kind that the current file may refer to.
 func (g *Gen) pickRef(kind string) *Ref {
 	if !g.Cfg.Refs {
@@ -263,8 +269,7 @@ func (g *Gen) pickRef(kind string) *Ref {
 		}
 	}
 	if kind == "object" && g.R.Chance(6) { // implicitly importable well-known types
-		w := vh.Pick(g.R, [][2]string{{"j5.list.v1", "PageRequest"}, {"j5.list.v1", "PageResponse"}, {"j5.list.v1", "QueryRequest"},
-			{"j5.state.v1", "StateMetadata"}, {"j5.state.v1", "EventMetadata"}, {"j5.messaging.v1", "UpsertMetadata"}})
+		w := vh.Pick(g.R, ImplicitTypes)
 		g.Stats["ref_implicit"]++
 		if g.R.Chance(30) {
 			spec := g.importSpec(w[0], "")
@@ -688,7 +693,9 @@ func (g *Gen) topic() *Topic {
 	return nil
 }
 
-var pkgRoots = [][]string{{"foo", "v1"}, {"foo", "bar", "v1"}, {"acme", "baz", "v2"}, {"zed", "v1"}, {"acme", "users", "v1"}, {"lib", "common", "v3"}}
+// package directories: two to four name parts, and two that lie below the directory of another one
+var pkgRoots = [][]string{{"foo", "v1"}, {"foo", "bar", "v1"}, {"acme", "baz", "v2"}, {"zed", "v1"}, {"acme", "users", "v1"}, {"lib", "common", "v3"},
+	{"foo", "v1", "inner", "v1"}, {"acme", "baz", "v2", "ext", "v1"}, {"acme", "billing", "invoice", "v1"}}
 
 // Bundle generates a whole bundle; the returned package is the one to compile
 // (the last one: it may refer to all the others).
